@@ -20,7 +20,7 @@
 (* with a queued nonce) changes arbitrarily (member de/activation, nonce   *)
 (* top-ups) — property C10/C05 own that machinery.                         *)
 (* tss parameters in this family: max_signing_attempt = 1 (a timed-out     *)
-(* signing fails), signing_period = Period, creation_period = CreatePeriod.*)
+(* signing fails), signing_period = par.period, creation_period = par.create.*)
 (***************************************************************************)
 EXTENDS Integers, Sequences, FiniteSets, TLC
 
@@ -31,8 +31,8 @@ CONSTANTS
     MaxSig,        \* tss signing ids 1..MaxSig
     MemberMenu,    \* member sets a proposal may name (subset of SUBSET Addr)
     MinDur, MaxDur,\* transition window [now+MinDur, now+MaxDur]
-    Period,        \* tss signing_period (blocks)
-    CreatePeriod,  \* tss creation_period (blocks)
+    PeriodSet,     \* values of tss signing_period (blocks)
+    CreateSet,     \* values of tss creation_period (blocks)
     FeeSet,        \* values of fee_per_signer
     DtSet,         \* block time increments
     LimitSet,      \* fee limits tried
@@ -42,6 +42,7 @@ Groups == 1..MaxG
 Sigs   == 1..MaxSig
 
 VARIABLES
+    par,        \* [period, create]: tss signing_period / creation_period of this history (never changes)
     h, now,
     fee,        \* params.fee_per_signer (single denom)
     current,    \* current group id (0 = none)
@@ -62,7 +63,7 @@ VARIABLES
     out,        \* "init" | "ok" | "rej"
     owed        \* ghost: escrow that belongs to unfinished or failed paid requests
 
-vars == <<h, now, fee, current, tr, gcount, grp, pendG, lastExpG, bm, canSign, sigc, sig, bsigc, bsig,
+vars == <<par, h, now, fee, current, tr, gcount, grp, pendG, lastExpG, bm, canSign, sigc, sig, bsigc, bsig,
           bal, escrow, earned, out, owed>>
 
 NoTr  == [status |-> "NONE", incoming |-> 0, cur |-> 0, execTime |-> 0, sid |-> 0, forced |-> FALSE]
@@ -76,7 +77,7 @@ Incoming == IF tr.status = "WAITING_EXEC" THEN tr.incoming ELSE 0    \* GetIncom
 
 Rejected ==
     /\ out' = "rej"
-    /\ UNCHANGED <<h, now, fee, current, tr, gcount, grp, pendG, lastExpG, bm, canSign, sigc, sig, bsigc, bsig,
+    /\ UNCHANGED <<par, h, now, fee, current, tr, gcount, grp, pendG, lastExpG, bm, canSign, sigc, sig, bsigc, bsig,
                    bal, escrow, earned, owed>>
 
 -----------------------------------------------------------------------------
@@ -93,7 +94,7 @@ Propose(auth, ms, thr, off) ==
          /\ tr' = [status |-> "CREATING", incoming |-> g, cur |-> current, execTime |-> now + off,
                    sid |-> 0, forced |-> FALSE]
          /\ out' = "ok"
-         /\ UNCHANGED <<h, now, fee, current, pendG, lastExpG, bm, canSign, sigc, sig, bsigc, bsig, bal, escrow, earned, owed>>
+         /\ UNCHANGED <<par, h, now, fee, current, pendG, lastExpG, bm, canSign, sigc, sig, bsigc, bsig, bal, escrow, earned, owed>>
     ELSE Rejected
 
 (* MsgForceTransitionGroup *)
@@ -107,7 +108,7 @@ Force(auth, g, off) ==
          /\ tr' = [status |-> "WAITING_EXEC", incoming |-> g, cur |-> current, execTime |-> now + off,
                    sid |-> 0, forced |-> TRUE]
          /\ out' = "ok"
-         /\ UNCHANGED <<h, now, fee, current, gcount, grp, pendG, lastExpG, canSign, sigc, sig, bsigc, bsig, bal, escrow, earned, owed>>
+         /\ UNCHANGED <<par, h, now, fee, current, gcount, grp, pendG, lastExpG, canSign, sigc, sig, bsigc, bsig, bal, escrow, earned, owed>>
     ELSE Rejected
 
 (* key generation of g reaches the end of round 3 (environment): processed by the next end-block *)
@@ -116,7 +117,7 @@ DkgDone(g, good) ==
     /\ grp' = [grp EXCEPT ![g].st = IF good THEN "r3ok" ELSE "r3bad"]
     /\ pendG' = Append(pendG, g)
     /\ out' = "ok"
-    /\ UNCHANGED <<h, now, fee, current, tr, gcount, lastExpG, bm, canSign, sigc, sig, bsigc, bsig, bal, escrow, earned, owed>>
+    /\ UNCHANGED <<par, h, now, fee, current, tr, gcount, lastExpG, bm, canSign, sigc, sig, bsigc, bsig, bal, escrow, earned, owed>>
 
 (* environment: an ACTIVE tss group that bandtss does not know yet (e.g. created earlier); a target for Force *)
 InstallGroup(ms, thr) ==
@@ -124,17 +125,17 @@ InstallGroup(ms, thr) ==
     /\ gcount' = gcount + 1
     /\ grp' = [grp EXCEPT ![gcount + 1] = [st |-> "active", mem |-> ms, thr |-> thr, createdH |-> h]]
     /\ out' = "ok"
-    /\ UNCHANGED <<h, now, fee, current, tr, pendG, lastExpG, bm, canSign, sigc, sig, bsigc, bsig, bal, escrow, earned, owed>>
+    /\ UNCHANGED <<par, h, now, fee, current, tr, pendG, lastExpG, bm, canSign, sigc, sig, bsigc, bsig, bal, escrow, earned, owed>>
 
 SetCanSign(g, b) ==
     /\ canSign' = [canSign EXCEPT ![g] = b]
-    /\ UNCHANGED <<h, now, fee, current, tr, gcount, grp, pendG, lastExpG, bm, sigc, sig, bsigc, bsig, bal, escrow, earned, out, owed>>
+    /\ UNCHANGED <<par, h, now, fee, current, tr, gcount, grp, pendG, lastExpG, bm, sigc, sig, bsigc, bsig, bal, escrow, earned, out, owed>>
 
 Committees(g) == {S \in SUBSET grp[g].mem : Cardinality(S) = grp[g].thr}
 
 ComOrNone(g) == (IF g # 0 THEN Committees(g) ELSE {}) \cup {{}}
 
-NewSig(g, kind, S, bid) == [g |-> g, kind |-> kind, st |-> "waiting", expH |-> h + Period, com |-> S, bid |-> bid]
+NewSig(g, kind, S, bid) == [g |-> g, kind |-> kind, st |-> "waiting", expH |-> h + par.period, com |-> S, bid |-> bid]
 
 (***************************************************************************)
 (* MsgRequestSignature (createSigningRequest).  p = "authority" is free.   *)
@@ -142,7 +143,7 @@ NewSig(g, kind, S, bid) == [g |-> g, kind |-> kind, st |-> "waiting", expH |-> h
 (* best effort — whether that second signing gets created (incOK) never    *)
 (* changes the outcome for the current group or the fee.                   *)
 (***************************************************************************)
-Request(p, limit, S, incOK, SI) ==
+Request(p, limit, lx, S, incOK, SI) ==
     LET cur  == current
         inc  == Incoming
         paid == p # "authority" /\ cur # 0
@@ -151,7 +152,9 @@ Request(p, limit, S, incOK, SI) ==
         curOK == cur # 0 /\ canSign[cur]
         mkInc == inc # 0 /\ incOK
     IN
-    IF /\ limit >= 1                       \* ValidateBasic: the fee limit must be a non-empty, positive coin list
+    \* limit = the limit in the fee's denom, lx = an amount of some other denom in the same limit (the fee is never
+    \* payable from it).  ValidateBasic: the fee limit must be a non-empty list of positive coins
+    IF /\ (limit >= 1 \/ lx >= 1)
        /\ (cur # 0 \/ inc # 0)
        /\ cost <= limit
        /\ (paid => bal[p] >= cost)
@@ -175,7 +178,7 @@ Request(p, limit, S, incOK, SI) ==
          /\ escrow' = escrow + cost
          /\ owed' = owed + cost
          /\ out' = "ok"
-         /\ UNCHANGED <<h, now, fee, current, tr, gcount, grp, pendG, lastExpG, bm, canSign, earned>>
+         /\ UNCHANGED <<par, h, now, fee, current, tr, gcount, grp, pendG, lastExpG, bm, canSign, earned>>
     ELSE /\ S = {} /\ SI = {} /\ incOK = FALSE
          /\ Rejected
 
@@ -184,7 +187,7 @@ SignAll(id) ==
     /\ id \in Sigs /\ sig[id].st = "waiting"
     /\ sig' = [sig EXCEPT ![id].st = "agg"]
     /\ out' = "ok"
-    /\ UNCHANGED <<h, now, fee, current, tr, gcount, grp, pendG, lastExpG, bm, canSign, sigc, bsigc, bsig, bal, escrow, earned, owed>>
+    /\ UNCHANGED <<par, h, now, fee, current, tr, gcount, grp, pendG, lastExpG, bm, canSign, sigc, bsigc, bsig, bal, escrow, earned, owed>>
 
 -----------------------------------------------------------------------------
 (* EndBlock, as a pipeline of pure functions on a record of the affected variables *)
@@ -201,7 +204,7 @@ Completed(s, g, HS) ==
               THEN LET id == s.sigc + 1 IN
                    [s EXCEPT !.sigc = id,
                              !.sig[id] = [g |-> s.current, kind |-> "handover", st |-> "waiting",
-                                          expH |-> h + Period, com |-> HS, bid |-> 0],
+                                          expH |-> h + par.period, com |-> HS, bid |-> 0],
                              !.tr.status = "WAITING_SIGN", !.tr.sid = id]
               ELSE [s EXCEPT !.tr = NoTr]
 
@@ -217,7 +220,7 @@ RECURSIVE ProcessGroups(_, _, _)
 ProcessGroups(s, gs, HS) == IF gs = <<>> THEN s ELSE ProcessGroups(ProcessGroup(s, Head(gs), HS), Tail(gs), HS)
 
 \* HandleExpiredGroups: prefix of groups whose creation period is over
-ExpiringG(s) == {g \in (s.lastExpG + 1)..gcount : \A j \in (s.lastExpG + 1)..g : s.grp[j].createdH + CreatePeriod <= h}
+ExpiringG(s) == {g \in (s.lastExpG + 1)..gcount : \A j \in (s.lastExpG + 1)..g : s.grp[j].createdH + par.create <= h}
 ExpireGroup(s, g) ==
     IF s.grp[g].st \in {"active", "fallen"} THEN s
     ELSE DropIfCreating([s EXCEPT !.grp[g].st = "expired"], g)
@@ -282,7 +285,7 @@ EndBlock(dt, HS) ==
     /\ pendG' = <<>>
     /\ h' = h + 1 /\ now' = now + dt
     /\ out' = "ok"
-    /\ UNCHANGED <<fee, gcount, canSign, bsigc, bsig, bal>>
+    /\ UNCHANGED <<par, fee, gcount, canSign, bsigc, bsig, bal>>
 
 -----------------------------------------------------------------------------
 Next ==
@@ -291,8 +294,8 @@ Next ==
     \/ \E g \in Groups, good \in BOOLEAN : DkgDone(g, good)
     \/ \E g \in Groups, b \in BOOLEAN : SetCanSign(g, b)
     \/ \E ms \in MemberMenu : InstallGroup(ms, 1)
-    \/ \E p \in Payer \cup {"authority"}, limit \in LimitSet, incOK \in BOOLEAN :
-          \E S \in ComOrNone(current), SI \in ComOrNone(Incoming) : Request(p, limit, S, incOK, SI)
+    \/ \E p \in Payer \cup {"authority"}, limit \in LimitSet, lx \in {0, 1}, incOK \in BOOLEAN :
+          \E S \in ComOrNone(current), SI \in ComOrNone(Incoming) : Request(p, limit, lx, S, incOK, SI)
     \/ \E id \in Sigs : SignAll(id)
     \/ \E dt \in DtSet : \E HS \in ComOrNone(current) : EndBlock(dt, HS)
 
